@@ -538,6 +538,22 @@ pub fn run(tier: Tier) -> i32 {
             cjobs.push((map.clone(), cs, r2, if d == "hundreds-of-alleles" { Container::VcfGz } else { Container::Bcf }, d.to_string()));
         }
     }
+    // 40 sample columns: neighbouring records agree in the last 32 columns and differ in the first
+    // eight, where selected samples sit (a record must never be taken for a repeat of its neighbour
+    // on the strength of a part of its columns)
+    {
+        let called = [Cls::G0, Cls::G1, Cls::G2];
+        let rows40: Vec<Vec<Cls>> = (0..24usize).map(|r| (0..40usize).map(|j| if j < 8 { called[(r + j) % 3] } else { called[(r / 2 + j) % 3] }).collect()).collect();
+        for sel in [vec![(0usize, 0usize), (1, 0), (5, 1), (39, 1)], vec![(2, 0), (7, 1), (8, 1)], vec![(3, 0)]] {
+            let mut map40: Vec<Option<usize>> = vec![None; 40];
+            for (smp, pop) in sel {
+                map40[smp] = Some(pop);
+            }
+            for c in [Container::Vcf, Container::Bcf] {
+                cjobs.push((map40.clone(), callset_from_rows(40, &rows40, 0), rows40.clone(), c, "forty-columns-paired-records".into()));
+            }
+        }
+    }
     let res = par_map(cjobs.len(), |i| {
         let (map, cs, rows, c, what) = &cjobs[i];
         eval_cli(map, cs, rows, *c, what, &scratch)
@@ -556,7 +572,7 @@ pub fn run(tier: Tier) -> i32 {
         name: "cli: sfs create -s".into(),
         evaluations: cjobs.len() as u64,
         nontrivial: nt,
-        note: format!("S={s}: {} maps x ({} one-record VCFs + every-row call set in 4 containers on stdin and by path under its conventional file name + the rows complete among the selected samples under --strict / --threads / verbosity / precision flag combinations in vcf and bcf + the assignment as a samples file with LF / CRLF endings with and without a final line end + the VCF without a final line end and with further meta lines + explicit --precision 0/1/6/17 + verbosity flags -q/-v/-vv/-vvv + a list naming one sample twice (same label; and with another label: error, first- or last-label assignment) + the list grouped by population (order unlike the column order) + 9 decorations in vcf and bcf)", maps.len(), rows.len()),
+        note: format!("S={s}: {} maps x ({} one-record VCFs + every-row call set in 4 containers on stdin and by path under its conventional file name + the rows complete among the selected samples under --strict / --threads / verbosity / precision flag combinations in vcf and bcf + the assignment as a samples file with LF / CRLF endings with and without a final line end + the VCF without a final line end and with further meta lines + explicit --precision 0/1/6/17 + verbosity flags -q/-v/-vv/-vvv + a list naming one sample twice (same label; and with another label: error, first- or last-label assignment) + the list grouped by population (order unlike the column order) + 9 decorations in vcf and bcf); 40 sample columns with neighbouring records that agree in their last 32 columns", maps.len(), rows.len()),
         exhaustive: true,
         extra: vec![],
     });
